@@ -148,6 +148,7 @@ type Exec struct {
 	TraceOn bool
 	env     *Thread
 	ptrIDs  U64Map
+	ptrKeep []unsafe.Pointer
 	Trace   []string
 }
 
@@ -656,6 +657,7 @@ func HashPtr(p unsafe.Pointer) uint64 {
 	if !ok {
 		id = uint64(E.ptrIDs.Len() + 1)
 		E.ptrIDs.Put(uint64(uintptr(p)), id)
+		E.ptrKeep = append(E.ptrKeep, p) // pinned: a collected object's address must not be reused within the execution
 	}
 	return id
 }
